@@ -8,6 +8,9 @@ G  every TLC-enumerated document, with the relations the model demands, is concr
    parsed by the real ctx.parse(); the real relations are read off the real tree by
    locating each line's marker word (parent chains only) and compared with TLC's.
    The machine's full tree is compared too (filler-free variant) -- DRIFT only.
+   Universes S1/S2 (S3 thorough) carry STRUCTURED fillers enumerated by TLC itself: nested links /
+   template calls / argument references / external links whose arguments span several lines and
+   continue with text that means something at a line start; they are spelled piece by piece.
 V  seeded random longer documents (<= 10 headings, <= 12 list lines, depth <= 4, rules,
    paragraphs, blanks, fillers) are parsed by the real code, the extracted relations are
    recorded and validated by TLC against ParserRef (Trace_ParserRef).
@@ -92,7 +95,7 @@ def spell(doc, fill) -> str:
     out = []
     for i, ln in enumerate(doc):
         w = f"w{i + 1}"
-        f, before = fill.get(i, (NONE, False))
+        f, before, *inline = fill.get(i, (NONE, False))
         t = ln["t"]
         if t in ("H", "L"):
             body = w if not f else (f"{f} {w}" if before else f"{w} {f}")
@@ -101,7 +104,7 @@ def spell(doc, fill) -> str:
             else:
                 out.append("".join(ln["p"]) + " " + body)
         elif t == "P":
-            if f and "\n" in f or f.startswith(" "):
+            if not inline and (f and "\n" in f or f.startswith(" ")):
                 out.append(f + "\n" + w if before else w + "\n" + f)
             else:
                 out.append(w if not f else (f"{f} {w}" if before else f"{w} {f}"))
@@ -124,6 +127,116 @@ def spell_plain(doc) -> str:
             else w if t == "P" else "----" if t == "R" else ""
         )
     return "\n".join(out) + "\n"
+
+
+# ---------------------------------------------------------------------------
+# structured fillers (enumerated by TLC: Gen_ParserRef universes S1/S2/S3; random ones for V)
+# ---------------------------------------------------------------------------
+S_OPEN = {"T": "{{", "A": "{{{", "L": "[[", "E": "["}
+S_CLOSE = {"T": "}}", "A": "}}}", "L": "]]", "E": "]"}
+S_ATOM = {"url": "http://x.org"}
+
+
+def render_piece(p) -> str:
+    """The wikitext of one piece of the model: a token of Parser.tla or a nested filler."""
+    k = p["k"]
+    if k == "TXT":
+        return "".join(S_ATOM.get(a, a) for a in p["a"])
+    if k == "SP":
+        return " " * p["n"]
+    if k == "NL":
+        return "\n"
+    if k == "LP":
+        return "".join(p["p"])
+    if k == "FILL":
+        return S_OPEN[p["m"]] + "|".join("".join(render_piece(q) for q in arg) for arg in p["args"]) + S_CLOSE[p["m"]]
+    raise ValueError(f"unknown piece {p!r}")
+
+
+def spell_s(sdoc) -> str:
+    """Spelling of a document whose lines may carry a structured filler (field s; z = a word follows it):
+    exactly the token sequence ParserRefDoc!Tokens describes."""
+    out = []
+    for i, ln in enumerate(sdoc):
+        w = f"w{i + 1}"
+        t = ln["t"]
+        body = w
+        if "s" in ln:
+            body += " " + render_piece(ln["s"]) + (" z" if ln["z"] else "")
+        elif ln.get("f"):
+            raise ValueError("opaque filler flag in a structured document")
+        if t == "H":
+            out.append("=" * ln["l"] + " " + body + " " + "=" * ln["l"])
+        elif t == "L":
+            out.append("".join(ln["p"]) + " " + body)
+        elif t == "P":
+            out.append(body)
+        elif t == "R":
+            out.append("----")
+        else:
+            out.append("")
+    return "\n".join(out) + "\n"
+
+
+def filler_depth(p) -> int:
+    return 1 + max([filler_depth(q) for arg in p["args"] for q in arg if q["k"] == "FILL"], default=0)
+
+
+def filler_shape(p):
+    """(kinds outermost first, newline inside?, depth) of a structured filler."""
+    kinds, nl = [], False
+
+    def walk(q):
+        nonlocal nl
+        kinds.append(q["m"])
+        for arg in q["args"]:
+            for r in arg:
+                if r["k"] == "NL":
+                    nl = True
+                elif r["k"] == "FILL":
+                    walk(r)
+    walk(p)
+    return "".join(kinds), nl, filler_depth(p)
+
+
+def random_filler(rng, depth):
+    """A random structured filler (the piece vocabulary of Gen_ParserRef) of nesting depth <= depth."""
+    m = rng.choice("TTAALE")
+    multi = m != "E"        # the bracket syntax of an external link ends at a newline
+    wd = lambda a: {"k": "TXT", "a": [a]}
+    sp, nl = {"k": "SP", "n": 1}, {"k": "NL"}
+
+    def gen_arg():
+        arg, last_word = [], False
+        for _ in range(rng.randint(0, 4)):
+            c = rng.random()
+            if c < 0.3:
+                if depth > 1:
+                    inner = random_filler(rng, depth - 1)
+                    if not (m in "LE" and inner["m"] in "LE"):      # links do not nest in links
+                        arg.append(inner)
+                        last_word = False
+            elif c < 0.5:
+                if not last_word:                                   # two words in a row would be one token
+                    arg.append(wd("x"))
+                    last_word = True
+            elif not multi:
+                pass
+            elif c < 0.7:
+                arg.append(nl)
+                last_word = False
+            elif c < 0.85:
+                arg += [nl, {"k": "LP", "p": [rng.choice("*#")]}, sp, wd("y")]
+                last_word = True
+            else:
+                arg += [nl, sp, wd("y")]
+                last_word = True
+        return arg
+
+    if m == "E":
+        return {"k": "FILL", "m": m, "args": [[wd("url"), sp] + (gen_arg() or [wd("x")])]}
+    head = {"T": "t", "A": "1", "L": "l"}[m]
+    return {"k": "FILL", "m": m, "args": [[wd(head)]] + [gen_arg() for _ in range(rng.randint(1, 3))]}
 
 
 def slots(doc):
@@ -259,9 +372,31 @@ def judge(o: Outcome, case, name, text, rel, err, origin):
            f"the nesting model demands {exp[cls]!r}")
     if case.get("asis") is not None and rel == case["asis"]:
         o.classify(c, why, [DEV], cls="hline-level1")
+    elif "sdoc" in case:
+        c["sdoc"] = case["sdoc"]
+        o.violation(c, why + struct_why(case["sdoc"], case.get("flag")), cls=origin + ":struct:" + cls)
     else:
         o.violation(c, why, cls=origin + ":" + cls)
     return False
+
+
+def struct_why(sdoc, flag) -> str:
+    """What the structured filler of the document is, and (flag: decided by TLC, Trace_ParserRef) whether the
+    observed relations are those of the model machine with the deviation BeglineFlagNotCounted."""
+    parts = []
+    for i, ln in enumerate(sdoc):
+        if "s" in ln:
+            kinds, nl, depth = filler_shape(ln["s"])
+            parts.append(f"line {i + 1} carries the balanced filler {render_piece(ln['s'])!r} (constructs {kinds}, nesting depth "
+                         f"{depth}{', spans several lines' if nl else ''})")
+    msg = " -- " + "; ".join(parts) + ": a filler is opaque, the line-start handling (list closing, list markers, leading " \
+          "blanks) must stay switched off until its OUTERMOST construct is closed"
+    if flag:
+        msg += ("; TLC: the observed relations are exactly those of the model machine whose begline switch comes back "
+                "when an INNER construct is left (deviation BeglineFlagNotCounted: ctx.begline_disabled does not count its nesting)")
+    elif flag is not None:
+        msg += "; TLC: not explained by the model deviation BeglineFlagNotCounted"
+    return msg
 
 
 def variants_for(rng, doc, n_random, all_fillers):
@@ -285,6 +420,20 @@ def variants_for(rng, doc, n_random, all_fillers):
     return v
 
 
+def diagnose_struct(o: Outcome, cases, results, cap=400):
+    """Structured cases whose real relations differ from the model's are handed to TLC (Trace_ParserRef) once more,
+    which says whether the model machine with BeglineFlagNotCounted produces exactly the observed relations."""
+    todo = [(idx, rel) for idx, name, text, rel, err, tree in results
+            if name == "struct" and rel is not None and rel != cases[idx]["rel"]]
+    todo = sorted(todo, key=lambda t: len(json.dumps(cases[t[0]]["sdoc"])))[:cap]      # the smallest ones are reported
+    if not todo:
+        return
+    r, bad = validate_batch([{"doc": cases[idx]["sdoc"], "obs": rel} for idx, rel in todo])
+    o.add_tlc("Trace_ParserRef(diagnosis)", r)
+    for b in bad:
+        cases[todo[b["i"] - 1][0]]["flag"] = bool(b["flag"])
+
+
 def run_g(o: Outcome, cfgs, n_random, tier):
     with ThreadPoolExecutor(len(cfgs)) as ex:
         rs = list(ex.map(lambda c: tlc("Gen_ParserRef", c, workers=1, timeout=3000), cfgs))
@@ -297,11 +446,22 @@ def run_g(o: Outcome, cfgs, n_random, tier):
             cases.append(c)
     rng = random.Random(common.seed() * 7919 + 2)
     work = []
+    shapes = {}
     for idx, c in enumerate(cases):
         if not c["doc"]:
             continue
-        work.append((idx, c["doc"], variants_for(rng, c["doc"], n_random, c["allf"]), not c["allf"]))
+        if "sdoc" in c:
+            # structured universes: the document is spelled exactly as the model's token sequence says
+            work.append((idx, c["doc"], [("struct", spell_s(c["sdoc"]))], False))
+            for ln in c["sdoc"]:
+                if "s" in ln:
+                    k = "%s nl=%d depth=%d" % filler_shape(ln["s"])
+                    shapes[k] = shapes.get(k, 0) + 1
+        else:
+            work.append((idx, c["doc"], variants_for(rng, c["doc"], n_random, c["allf"]), not c["allf"]))
     results = pmap(run_chunk, work)
+    diagnose_struct(o, cases, results)
+    o.extra["structured_filler_shapes"] = dict(sorted(shapes.items()))
     drift_seen = 0
     for idx, name, text, rel, err, tree in results:
         c = cases[idx]
@@ -402,6 +562,15 @@ def run_v(o: Outcome, n):
         if not doc:
             doc = [{"t": "P"}]
         fill = {i: pick(rng, doc[i]) for i in slots(doc) if rng.random() < 0.5}
+        if rng.random() < 0.35:
+            # one or two lines carry a random STRUCTURED filler (nesting depth <= 3, may span lines) after their word;
+            # the recorded document keeps the structure (fields s, z) so that TLC can replay it through the machine
+            doc = [dict(ln) for ln in doc]
+            sl = slots(doc)
+            for i in rng.sample(sl, min(len(sl), rng.randint(1, 2))):
+                doc[i]["s"] = random_filler(rng, rng.randint(1, 3))
+                doc[i]["z"] = rng.random() < 0.5
+                fill[i] = (render_piece(doc[i]["s"]) + (" z" if doc[i]["z"] else ""), False, True)
         items.append((idx, doc, spell(doc, fill)))
     res = {idx: (rel, err) for idx, rel, err in pmap(run_v_chunk, items)}
     batch, index = [], []
@@ -428,6 +597,8 @@ def run_v(o: Outcome, n):
             idx = index[j]
             _, doc, text = items[idx]
             case = {"doc": doc, "rel": b["expected"], "asis": batch[j]["obs"] if b["asis"] else None}
+            if any("s" in ln for ln in doc):
+                case["sdoc"], case["flag"] = doc, bool(b["flag"])
             judge_v(o, case, text, batch[j]["obs"])
     for bt in batch:
         o.shape(("vrel", common.json_key(bt["obs"])))
@@ -443,6 +614,8 @@ def judge_v(o, case, text, rel):
            f"the nesting model demands {exp[cls]!r}")
     if case["asis"] is not None:
         o.classify(c, why, [DEV], cls="hline-level1")
+    elif "sdoc" in case:
+        o.violation(c, why + struct_why(case["sdoc"], case["flag"]), cls="V:struct:" + cls)
     else:
         o.violation(c, why, cls="V:" + cls)
 
@@ -455,26 +628,42 @@ def run(tier: str) -> int:
     o.rule = ("G: every document (sequence of heading / list / rule / paragraph / blank lines) reachable in the "
               "universes of Gen_ParserRef is one case; each is parsed filler-free, with random filler assignments "
               "and (universe F) with every catalogue filler in every slot; V: seeded random long documents "
-              "validated by Trace_ParserRef. distinct_nontrivial counts distinct relation records (own, sec, item, "
+              "validated by Trace_ParserRef. Universes S1/S2 (S3 thorough): documents with one STRUCTURED filler enumerated by "
+              "TLC (outer construct T/A/L x inner construct T/A/L/E, single- or multi-line, x every body of <= 2 (3) elements "
+              "over {inner construct, word, newline, newline+list marker, newline+blank, argument separator}, depth 3 in S3; "
+              "S1 = every filler in 10 document frames, S2 = 12 representative fillers in every document of <= 3 lines), "
+              "spelled piece by piece; V also puts random structured fillers (depth <= 3) into 35 % of its documents. "
+              "distinct_nontrivial counts distinct relation records (own, sec, item, "
               "lst, counts) demanded / observed.")
     o.assumptions = [
         "marker words w<i> identify lines; fillers never contain such a word",
         "inline fillers stand after (or, where that does not change the construct, before) the marker word; "
         "block fillers only next to paragraph words",
         "relations are read off the real tree from parent chains of the marker words (harness/parsetree.word_paths)",
+        "structured fillers stand after the marker word; inside them only words, blanks, newlines, * / # at a line start, "
+        "the argument separator and further constructs occur (no rule, heading or table syntax); links are not nested in links",
     ]
     if thorough:
         cfgs = ["Gen_ParserRef_TH.cfg", "Gen_ParserRef_TL.cfg", "Gen_ParserRef_TM.cfg", "Gen_ParserRef_TM6.cfg", "Gen_ParserRef_QM.cfg",
-                "Gen_ParserRef_QF.cfg"]
+                "Gen_ParserRef_QF.cfg", "Gen_ParserRef_QS1.cfg", "Gen_ParserRef_QS2.cfg", "Gen_ParserRef_TS3.cfg"]
     else:
-        cfgs = ["Gen_ParserRef_QH.cfg", "Gen_ParserRef_QL.cfg", "Gen_ParserRef_QM.cfg", "Gen_ParserRef_QF.cfg"]
-    run_g(o, cfgs, 2 if thorough else 1, tier)
+        cfgs = ["Gen_ParserRef_QH.cfg", "Gen_ParserRef_QL.cfg", "Gen_ParserRef_QM.cfg", "Gen_ParserRef_QF.cfg",
+                "Gen_ParserRef_QS1.cfg", "Gen_ParserRef_QS2.cfg"]
+    # the Demo for the structured fillers (runs beside G): TLC itself finds a counterexample on a machine whose
+    # begline switch does not count its nesting
+    with ThreadPoolExecutor(1) as ex:
+        demo = ex.submit(tlc, "Gen_ParserRef", "Demo_ParserRef_begline.cfg", workers=1, check=False)
+        run_g(o, cfgs, 2 if thorough else 1, tier)
+        rb = demo.result()
     o.exhaustive = True
     # the Demo: TLC itself finds the rule/LEVEL1 counterexample on the as-is machine
     r = tlc("Gen_ParserRef", "Demo_ParserRef_hline.cfg", workers=1, check=False)
     o.extra["demo_hline_asis_counterexample_found"] = "AsIsOK" in r.invariant_violated
     if "AsIsOK" not in r.invariant_violated:
         raise common.TLCError("Demo_ParserRef_hline did not produce the expected counterexample")
+    o.extra["demo_begline_flag_counterexample_found"] = "FlagOK" in rb.invariant_violated
+    if "FlagOK" not in rb.invariant_violated:
+        raise common.TLCError("Demo_ParserRef_begline did not produce the expected counterexample")
     run_v(o, 60000 if thorough else 4000)
     return o.finish()
 
@@ -495,20 +684,26 @@ def replay(path: str) -> int:
 
 
 def selftest() -> int:
-    """A recorded relation is corrupted; Trace_ParserRef must reject exactly that case."""
+    """A recorded relation is corrupted; Trace_ParserRef must reject exactly that case (once for a plain document,
+    once for a document whose list line carries a nested multi-line structured filler)."""
     common.use_repo()
     doc = [{"t": "H", "l": 2}, {"t": "L", "p": ["*"]}, {"t": "L", "p": ["*", "#"]}, {"t": "H", "l": 3}, {"t": "P"}]
+    wd = lambda a: {"k": "TXT", "a": [a]}
+    inner = {"k": "FILL", "m": "L", "args": [[wd("l")], [wd("u")]]}
+    sdoc = [dict(ln) for ln in doc]
+    sdoc[1].update(s={"k": "FILL", "m": "T", "args": [[wd("t")], [inner, {"k": "NL"}], [wd("x")]]}, z=True)
+    bad_counts = []
     with Scratch("c02s-") as d:
         ctx = pt.new_ctx(d)
-        root, err, _ = pt.parse(ctx, spell(doc, {}))
-        rel = relations(root, doc)
+        for dd, text in ((doc, spell(doc, {})), (sdoc, spell_s(sdoc))):
+            root, err, _ = pt.parse(ctx, text)
+            rel = relations(root, dd)
+            for corrupt in (False, True):
+                obs = json.loads(json.dumps(rel))
+                if corrupt:
+                    obs["item"][2] = 0          # pretend the nested item is not nested
+                _, bad = validate_batch([{"doc": dd, "obs": obs}])
+                bad_counts.append(len(bad))
         ctx.close_db_conn()
-    bad_counts = []
-    for corrupt in (False, True):
-        obs = json.loads(json.dumps(rel))
-        if corrupt:
-            obs["item"][2] = 0          # pretend the nested item is not nested
-        _, bad = validate_batch([{"doc": doc, "obs": obs}])
-        bad_counts.append(len(bad))
-    print("bad counts (intact, corrupted):", bad_counts)
-    return 0 if bad_counts == [0, 1] else 1
+    print("bad counts (intact, corrupted; plain, structured):", bad_counts)
+    return 0 if bad_counts == [0, 1, 0, 1] else 1
